@@ -405,6 +405,9 @@ def r5(ctx, F, eff):
             key = '%s:%s' % (top, short)
             # async: the future returned by the call is awaited; its output is what must be inspected
             discarded = result_dropped(fl, bi)
+            if discarded and short == 'remove_file' and t['args'] and removes_own_staging(F, b, t['args'][0]):
+                ctx.ok('C04.R5', key, 'best-effort removal of the staging file this handle created (a leftover staging name is allowed; nothing of the plan depends on it)', term_loc(b, bi))
+                continue
             if discarded:
                 ctx.bad('C04.R5', key, 'the result of %s in %s is discarded (`let _ =`): a failure leaves the destination outside the plan while the run exits 0' % (short, top),
                         term_loc(b, bi))
